@@ -19,9 +19,9 @@ class ElementTriN3(ElementHcurl):
             [0.75, 0.25],
             [0.50, 0.50],
             [0.25, 0.75],
-            [0.0, 0.75],
-            [0.0, 0.50],
             [0.0, 0.25],
+            [0.0, 0.50],
+            [0.0, 0.75],
             [0.25, 0.25],
             [0.25, 0.25],
             [0.50, 0.25],
